@@ -149,4 +149,54 @@ def Sentence.explicit (sen : Sentence) : DrawArgs where
   alpha := (sen.denote 0 0).alpha
   style := match sen.style with | some ss => ss.explicitArgs | none => []
 
+/-! ## which documented error for which non-sentence
+
+The documented rules, and nothing else:
+* the *render format specification* (`[h_align][width][.[v_align][height]][#[threshold|bgcolor]][+style]`)
+  is violated → the format-specifier error (`ValueError: Invalid format specifier`, `Err.invalidSpec`).
+  This is the case when the part before the style is not a well-formed main part, or a `+` is followed by
+  nothing (`<style>` is a field; a field is not empty).
+* the main part is fine, but the style part is not in the render style's own specification
+  (`_check_style_format_spec`: "Raises StyleError: Invalid style-specific format specifier") → `StyleError`.
+* the style part is lexically fine but a value is not allowed (`_check_style_args`: "ValueError: An
+  argument is of an appropriate type but has an unexpected/invalid value" — only the z-index range can
+  fail for what a specifier can express) → the value error (`Err.styleValue`).
+The main part ends, and the style part begins, at the first `+`: no field of the main part contains one.
+
+NOT DETERMINED by the documentation: a style part containing a line break.  It is certainly not a
+sentence, but nothing says whether a line break already violates the format specification (then
+`ValueError`) or is an invalid style-specific specifier (then `StyleError`).  For exactly these strings
+(`Undetermined`) only the disjunction is claimed (`reject_kind_undetermined`). -/
+
+def restToStyle : List Char → Option (List Char)
+  | [] => none
+  | _ :: t => some t
+
+/-- (text before the first `+`, text after it if there is one) -/
+def splitPlus (s : List Char) : List Char × Option (List Char) :=
+  (s.takeWhile (· != '+'), restToStyle (s.dropWhile (· != '+')))
+
+/-- `m` is a well-formed main part (a sentence without style part) -/
+def MainPart (m : List Char) : Prop :=
+  ∃ sen : Sentence, sen.style = none ∧ sen.wfMain = true ∧ sen.unparse = m
+
+/-- `t` is lexically a sentence of the style's own specification -/
+def StyleSyntax (st : Style) (t : List Char) : Prop :=
+  ∃ ss : StyleSen, ss.wfSyntax st = true ∧ ss.unparse = t
+
+/-- the strings for which the documentation does not determine the error class -/
+def Undetermined (s : List Char) : Prop :=
+  MainPart (splitPlus s).1 ∧ ∃ t, (splitPlus s).2 = some t ∧ t ≠ [] ∧ '\n' ∈ t
+
+open Classical in
+/-- the documented error of a non-sentence (meaningless on sentences) -/
+noncomputable def kindOf (st : Style) (s : List Char) : Err :=
+  if ¬ MainPart (splitPlus s).1 then .invalidSpec           -- the main part violates the format spec
+  else match (splitPlus s).2 with
+    | none => .invalidSpec                                   -- (a well-formed main part alone is a sentence)
+    | some t =>
+      if t = [] then .invalidSpec                            -- `+` followed by nothing
+      else if ¬ StyleSyntax st t then .styleError            -- not in the style's specification
+      else .styleValue                                       -- lexically fine, so a value must be out of range
+
 end TIV.C19
